@@ -76,7 +76,9 @@ def run(tier, seed, replay=None):
                 if (has_dup(ref.plan) or has_dup(ev.plan)) and "F-D12" in known_ids:
                     rep.known("F-D12")
                     break
-                if ref.plan.notes.get("bound_only_lifetimes") and label in ("placement", "all") and "F-D20" in known_ids:
+                bol = ref.plan.mode == "trait" and any(len(m_.lifetimes) >= 2 and any(a_[0] == "lt_" for k_ in f_.keys for a_ in k_.dargs)
+                                                       for f_ in ref.plan.families for m_ in f_.members)
+                if (ref.plan.notes.get("bound_only_lifetimes") or bol) and label in ("placement", "all") and "F-D20" in known_ids:
                     rep.known("F-D20")
                     continue
                 rep.oracle_failures.append({"clause": f"a {label} variant changed " + ("whether the invocation compiles" if obs[0] != ref_obs[0] else "the dispatch table"),
